@@ -223,7 +223,15 @@ def run(repo, rep, tier):
             ifs = [(unparse(t), p) for t, p, k in pc if k != 'for']
             src = unparse(strip_identity(fors[-1])) if fors else None
             rep.check('render', 'JSON list %s is built from %s' % (cat, want), src == want, a, 'JSON %s lists %s instead of %s' % (cat, src, want), sample={'rule': 'render', 'view': 'json', 'category': cat, 'source': src})
-            rep.check('render', 'JSON %s: one entry per element, unconditionally' % cat, ifs == [('kex is not None', True)], a, 'JSON %s entries are filtered by %s' % (cat, ifs))
+            lpn = a
+            while not isinstance(lpn, ast.For):
+                lpn = lpn._parent
+            lvn = unparse(lpn.target)
+            empty_guard = ('len(%s.strip()) == 0' % lvn, False)
+            extra = [c for c in ifs if c not in (('kex is not None', True), empty_guard)]
+            rep.check('render', 'JSON %s: one entry per advertised name; nothing but empty names is filtered' % cat, not extra, a, 'JSON %s entries are filtered by %s' % (cat, extra))
+            rep.check('render', 'JSON %s: empty names (an empty name-list parses as [\'\']) produce no entry, like in the text report' % cat, empty_guard in ifs, a,
+                      'JSON %s lists an entry for the empty name of an empty (or comma-terminated) name-list, flagged "unknown algorithm", although the peer advertised no such name and the text report shows none' % cat)
             lp = a
             while not isinstance(lp, ast.For):
                 lp = lp._parent
@@ -239,7 +247,9 @@ def run(repo, rep, tier):
             rep.check('render', 'JSON %s starts empty' % cat, len(init) == 1 and init[0].lineno < lp.lineno, lp, 'JSON %s list not initialised empty before the loop' % cat)
             for x in walk_no_nested(lp):
                 if isinstance(x, (ast.Break, ast.Continue)):
-                    rep.check('render', 'JSON %s loop has no break/continue' % cat, False, x, 'JSON %s loop can skip advertised names' % cat)
+                    gd = [(unparse(t), p) for t, p, k in path_condition(x, stop=lp) if k == 'if']
+                    okc = isinstance(x, ast.Continue) and gd == [('len(%s.strip()) == 0' % lv, True)]
+                    rep.check('render', 'JSON %s loop skips nothing but empty names' % cat, okc, x, 'JSON %s loop can skip advertised names (under %s)' % (cat, gd))
         else:
             rep.check('render', 'JSON view has a %s list' % cat, False, bs, 'JSON view lacks the %s list (found %d append sites)' % (cat, len(apps)), stmt='json list %s' % cat)
     # SSH-1 JSON
